@@ -643,6 +643,8 @@ func Equivalences(d *Dialect) []Edit {
 			Edit{"fk_omitted_action_spelled_noaction", nil, func(s *schema.Schema) { F(T(s, "t"), "fk_d2").OnUpdate = schema.NoAction }, nil},
 			Edit{"index_type_btree_explicit", nil, func(s *schema.Schema) { I(T(s, "t"), "idx_a").AddAttrs(&mysql.IndexType{T: "BTREE"}) }, nil},
 			Edit{"generated_name_index_left_unnamed", nil, func(s *schema.Schema) { I(T(s, "t"), "c").Name = "" }, nil},
+			// the server's default engine spelled out on a table that did not state one.
+			Edit{"engine_default_spelled_out", nil, func(s *schema.Schema) { T(s, "p").AddAttrs(&mysql.Engine{V: "InnoDB"}) }, nil},
 			Edit{"engine_case", nil, func(s *schema.Schema) {
 				t := T(s, "t")
 				t.Attrs = dropAttr[*mysql.Engine](t.Attrs)
